@@ -49,10 +49,11 @@ type SnapCfg struct {
 	Resume        bool
 	BufSize       int
 	Left          int64
-	Latency       bool   // the scheduler may let virtual time pass during the replay
-	OlderTarget   bool   // the target may be too old for some value types of the snapshot (RESTORE refused -> fallback)
-	KeyExists     string // replace (default, "") | ignore | error  (C20)
-	Bisync        bool   // bidirectional replay: every entry becomes a marker+commands transaction (C20/C04)
+	Latency       bool        // the scheduler may let virtual time pass during the replay
+	OlderTarget   bool        // the target may be too old for some value types of the snapshot (RESTORE refused -> fallback)
+	KeyExists     string      // replace (default, "") | ignore | error  (C20)
+	Bisync        bool        // bidirectional replay: every entry becomes a marker+commands transaction (C20/C04)
+	Filters       *FilterSpec // output filters (C10's snapshot stratum)
 }
 
 func (c SnapCfg) String() string {
@@ -178,7 +179,7 @@ func verGE(v string, maj, min int) bool {
 
 func (c SnapCfg) outputConfig(runID, cpName string) syncer.RedisOutputConfig {
 	pc := PipeCfg{BatchCount: 10, BatchBytes: 65536, BatchTicker: 10 * time.Millisecond, Keepalive: time.Second,
-		CpTicker: time.Second, Resume: c.Resume, DBM: c.DBM}
+		CpTicker: time.Second, Resume: c.Resume, DBM: c.DBM, Filters: c.Filters}
 	if c.Bisync {
 		pc.Bisync, pc.Mode, pc.Parallelism = true, "sync", 1
 	}
